@@ -11,11 +11,12 @@ under the key `None`:
 * `C13_empty_name_fails_top_partial` — a first-level field NAMED `''` is not (KF-C13-b): the lookup
                        under `None` raises, or finds the unnamed sibling.
 
-Deeper positions (`/a//b`, `/l/0//`) need `tokenize` on emitted strings with empty segments; there the
-model is tied to the code by correspondence and the Lean runner re-checks `find_fq_iff`'s statement
-(`spellable → (law ↔ addressable)`, unnamed fields included) on every generated tree.
+Deeper positions (`/a//b`, `/l/0//`, `///y`): `Proofs/C13Empty.lean` (imported here so that the audit
+sees it) — `tokenize_fqName_empty` is the tokenizer on emitted strings with empty segments at any depth,
+and `find_fq_addressable` / `find_fq_iff` / `C13_key_mismatch_fails` there no longer need `namedFrom`.
 -/
 import Proofs.C13
+import Proofs.C13Empty
 namespace Flatland.C13.Proofs
 open Flatland.Path Flatland.C13.Spec
 
